@@ -89,6 +89,8 @@ def run(ctx):
         pending.clear()
 
     for _ in range(ctx.budget(160, 4000)):
+        if ctx.expired():
+            break
         nidx = rng.randint(1, 3)
         try:
             r1 = build(rng, names, nidx, rng.randint(0, 2))
